@@ -610,7 +610,7 @@ class PendingAssign(PendingNode[Assign | AnnAssign]):
         return_list: list[expr] = []
         have_starred = False
         value_subscript: expr
-        slice_upper: Constant | None
+        slice_upper: expr | None
 
         # save the assign value to a tmp var
         # to make sure the value expr only runs once.
@@ -639,9 +639,9 @@ class PendingAssign(PendingNode[Assign | AnnAssign]):
 
                 sub_target = sub_target.value
 
-                slice_upper = Constant(value=index - len(target.elts) + 1)
-                if slice_upper.value == 0:
-                    slice_upper = None
+                slice_upper = None
+                if index - len(target.elts) + 1 != 0:
+                    slice_upper = utils.int_constant(index - len(target.elts) + 1)
 
                 value_subscript = Call(
                     func=Name(id="list", ctx=Load()),
@@ -659,9 +659,9 @@ class PendingAssign(PendingNode[Assign | AnnAssign]):
                 )
             else:
                 if not have_starred:
-                    _slice = Constant(value=index)
+                    _slice = utils.int_constant(index)
                 else:
-                    _slice = Constant(value=index - len(target.elts))
+                    _slice = utils.int_constant(index - len(target.elts))
 
                 value_subscript = Subscript(
                     value=tmp_value_name,
@@ -954,7 +954,7 @@ class PendingFunctionDef(_PendingCompoundStmt[FunctionDef]):
             args=self.converted_args,
             body=Subscript(
                 value=body_expr,
-                slice=Constant(value=-1),
+                slice=utils.int_constant(-1),
                 ctx=Load(),
             ),
         )
